@@ -13,3 +13,6 @@ if [ ! -x .venv/bin/python ] || ! .venv/bin/python -c "import z3, cvc5, jsonsche
   PIP_NO_INDEX=1 .venv/bin/python -m pip install --quiet --no-index --find-links /opt/veriftools/wheels z3-solver cvc5 jsonschema
 fi
 .venv/bin/python -c "import z3, cvc5, numpy, scipy, pulp, rnapolis.common; print('setup ok: z3', z3.get_version_string())"
+# Lean 4 + Mathlib lemmas of C02 (lean/Pigeonhole.lean): checked once here (offline, ~2 min cold) and cached by file hash under
+# .cache/lean, so that the quick tier can report the result; the thorough tier re-runs Lean itself. Never fatal for the setup.
+timeout 1200 .venv/bin/python -c "import os, sys; os.environ.setdefault('LOGLEVEL', 'CRITICAL'); sys.path.insert(0, '.'); import props.C02 as p; r = p.deductive_extra('thorough', 0); print('lean lemmas:', [x.get('status') for x in r])" 2>/dev/null || echo "lean lemmas: not checked (lean unavailable); the thorough tier will try again"
